@@ -47,12 +47,14 @@ type vbHeaderSpec struct {
 	Work   int    `json:"work"`
 	Kind   string `json:"kind"`
 	Height int    `json:"height"`
+	Gap    int    `json:"gap"` // minutes after the parent; 0 = derive from Work (1: 21 min, 2: 10 min)
 }
 
 type vbUniverse struct {
 	Headers     []vbHeaderSpec `json:"headers"`
 	Checkpoints map[string]int `json:"checkpoints"`
 	NPeers      int            `json:"npeers"`
+	AutoWork    bool           `json:"auto_work"`
 	Params      struct {
 		RetargetBlocks      int  `json:"retarget_blocks"`
 		ReduceMinDifficulty bool `json:"reduce_min_difficulty"`
@@ -66,6 +68,47 @@ type vbChain struct {
 	hash   []chainhash.Hash
 	byHash map[chainhash.Hash]int
 	maxH   int
+	work   []int64 // blockchain.CalcWork of every header's bits
+}
+
+// vbRequiredBits is the harness's own implementation of the difficulty rules
+// (retarget every `interval` blocks with the timespan clamped to [T/4, 4T],
+// optional testnet minimum-difficulty rule). anc[i] is the ancestor at height i,
+// the new header has height len(anc). btcd's CheckBlockHeaderContext is run on
+// every generated header afterwards; a disagreement aborts the run.
+func vbRequiredBits(p *chaincfg.Params, interval int, anc []*wire.BlockHeader, ts time.Time) uint32 {
+	last := anc[len(anc)-1]
+	lastH := len(anc) - 1
+	if (lastH+1)%interval != 0 {
+		if p.ReduceMinDifficulty {
+			if ts.Unix() > last.Timestamp.Unix()+int64(p.MinDiffReductionTime/time.Second) {
+				return p.PowLimitBits
+			}
+			i := lastH
+			for i >= 0 && i%interval != 0 && anc[i].Bits == p.PowLimitBits {
+				i--
+			}
+			if i < 0 {
+				return p.PowLimitBits
+			}
+			return anc[i].Bits
+		}
+		return last.Bits
+	}
+	first := anc[lastH-(interval-1)]
+	T := int64(p.TargetTimespan / time.Second)
+	actual := last.Timestamp.Unix() - first.Timestamp.Unix()
+	if actual < T/p.RetargetAdjustmentFactor {
+		actual = T / p.RetargetAdjustmentFactor
+	} else if actual > T*p.RetargetAdjustmentFactor {
+		actual = T * p.RetargetAdjustmentFactor
+	}
+	nt := new(big.Int).Mul(blockchain.CompactToBig(last.Bits), big.NewInt(actual))
+	nt.Div(nt, big.NewInt(T))
+	if nt.Cmp(p.PowLimit) > 0 {
+		nt.Set(p.PowLimit)
+	}
+	return blockchain.BigToCompact(nt)
 }
 
 var (
@@ -152,28 +195,30 @@ func vbBuildChain(u *vbUniverse, now time.Time) (*vbChain, error) {
 		var mr [32]byte
 		mr[0], mr[1] = byte(i), 0xAB
 		h.MerkleRoot = mr
-		gap := 10 * time.Minute
-		h.Bits = vbHardBits
-		if s.Work == 1 {
-			gap = 21 * time.Minute
-			h.Bits = vbEasyBits
+		var anc []*wire.BlockHeader
+		for j := s.Parent; j >= 0; j = u.Headers[j].Parent {
+			anc = append([]*wire.BlockHeader{c.hdr[j]}, anc...)
+			if j == 0 {
+				break
+			}
+		}
+		gap := time.Duration(s.Gap) * time.Minute
+		if s.Gap == 0 {
+			gap = 10 * time.Minute
+			if s.Work == 1 {
+				gap = 21 * time.Minute
+			}
 		}
 		h.Timestamp = par.Timestamp.Add(gap)
 		valid := true
 		switch s.Kind {
-		case "ok":
-		case "badpow":
-			valid = false
-		case "badbits":
-			// too easy for its timestamp
-			h.Bits = vbEasyBits
-			h.Timestamp = par.Timestamp.Add(10 * time.Minute)
+		case "ok", "badpow", "badbits":
 		case "badtime":
 			// the tightest violation: exactly the median time of the
 			// (up to) 11 true ancestors, where "after" is required
 			var tss []int64
-			for j, k := s.Parent, 0; j >= 0 && k < 11; j, k = u.Headers[j].Parent, k+1 {
-				tss = append(tss, c.hdr[j].Timestamp.Unix())
+			for k := len(anc) - 1; k >= 0 && len(tss) < 11; k-- {
+				tss = append(tss, anc[k].Timestamp.Unix())
 			}
 			for a := range tss {
 				for b := a + 1; b < len(tss); b++ {
@@ -183,12 +228,31 @@ func vbBuildChain(u *vbUniverse, now time.Time) (*vbChain, error) {
 				}
 			}
 			h.Timestamp = time.Unix(tss[len(tss)/2], 0)
-			h.Bits = vbHardBits
 		case "future":
 			h.Timestamp = now.Add(3 * time.Hour).Truncate(time.Second)
-			h.Bits = vbEasyBits
 		default:
 			return nil, fmt.Errorf("unknown kind %q", s.Kind)
+		}
+		h.Bits = vbRequiredBits(&p, u.Params.RetargetBlocks, anc, h.Timestamp)
+		switch s.Kind {
+		case "badpow":
+			valid = false
+		case "badbits":
+			// a difficulty the rules do not ask for at this position:
+			// the parent's (a skipped retarget) if that differs
+			if par.Bits != h.Bits {
+				h.Bits = par.Bits
+			} else if h.Bits == vbEasyBits {
+				h.Bits = vbHardBits
+			} else {
+				h.Bits = vbEasyBits
+			}
+		}
+		if !u.AutoWork && s.Kind == "ok" {
+			if (s.Work == 1) != (h.Bits == vbEasyBits) || (s.Work == 2) != (h.Bits == vbHardBits) {
+				return nil, fmt.Errorf("header %d: universe says work class %d but the rules require bits %08x",
+					i, s.Work, h.Bits)
+			}
 		}
 		vbMine(h, valid)
 		c.hdr[i] = h
@@ -213,6 +277,10 @@ func vbBuildChain(u *vbUniverse, now time.Time) (*vbChain, error) {
 		}
 	}
 	c.params = p
+	c.work = make([]int64, n)
+	for i := 0; i < n; i++ {
+		c.work[i] = blockchain.CalcWork(c.hdr[i].Bits).Int64()
+	}
 
 	// cross-check every header against btcd's rules with a full-slice context
 	cctx := newLightChainCtx(&c.params, int32(u.Params.RetargetBlocks),
@@ -990,4 +1058,35 @@ func TestVerifBlockManagerReplay(t *testing.T) {
 	}
 	w.Flush()
 	of.Close()
+}
+
+
+// TestVerifBlockManagerGen mines the universe and reports the work of every
+// header's difficulty bits, for universes whose difficulties follow from the
+// retarget rules rather than from a work class chosen up front.
+func TestVerifBlockManagerGen(t *testing.T) {
+	outFn, uf := os.Getenv("VERIF_OUT"), os.Getenv("VERIF_UNIVERSE")
+	if outFn == "" || uf == "" || os.Getenv("VERIF_PATHS") != "" {
+		t.Skip("not a generator run")
+	}
+	var u vbUniverse
+	ub, err := os.ReadFile(uf)
+	if err != nil {
+		t.Fatal(err)
+	}
+	if err := json.Unmarshal(ub, &u); err != nil {
+		t.Fatal(err)
+	}
+	c, err := vbBuildChain(&u, time.Now())
+	if err != nil {
+		t.Fatal(err)
+	}
+	bits := make([]uint32, len(c.hdr))
+	for i, h := range c.hdr {
+		bits[i] = h.Bits
+	}
+	ob, _ := json.Marshal(map[string]interface{}{"work": c.work, "bits": bits})
+	if err := os.WriteFile(outFn, ob, 0o644); err != nil {
+		t.Fatal(err)
+	}
 }
